@@ -3,7 +3,7 @@ interpreted on a sample parse tree (non-terminals as lists with rule / position 
 sample meta-classes that distinguish own from inherited attributes and recording stand-ins for the meta-model.
 
    Model@0-100 { name='m'  items+=[Item@5-20{name='i1' flag?='on'} , Item@22-40{name='i2'}]  first=[Item]'i2'@61-63
-                 refs+=[Item]'i1'@64-66 , 'i2'@68-70 'i1'@72-74 (optional separator)  kind=Kind(abstract: 'k' B@83-90{name='b'})   val=Val(match: 'a' 'b')
+                 refs+=[Item]'i1'@64-66 , 'i2'@68-70 'i1'@72-74 (optional separator)  kind=Kind(abstract: 'k' Val'v' B@83-90{name='b'})   val=Val(match: 'a' 'b')
                  box=Box@90-95{inner=Inner@90-95{}} }
 
    C05.g  every created object has its container as parent, the root has none; children hang in their attribute in input order
@@ -39,44 +39,65 @@ def r_processnode(root):
     COMMON, ABSTRACT, MATCH = consts.get("RULE_COMMON"), consts.get("RULE_ABSTRACT"), consts.get("RULE_MATCH")
     MANY, ONE, OPT = consts.get("MULT_ONEORMORE"), consts.get("MULT_ONE"), consts.get("MULT_OPTIONAL")
     TERM = HS({".kind": "cls", ".__name__": "Terminal"})
-    def build(tools=False, double=False):
+    REM = HS({".kind": "cls", ".__name__": "RegExMatch"})
+    def build(tools=False, double=False, regexp_group=False):
         prov = HS({".kind": "callable", ".tag": "rrel provider of the attribute"})
         def attr(name, cls, mult=ONE, cont=True, ref=False, boolasg=False, provider=None, mrule=None):
             return HS({".kind": "metaattr", ".name": name, ".cls": cls, ".mult": mult, ".cont": cont, ".ref": ref, ".bool_assignment": boolasg, ".scope_provider": provider, ".match_rule_name": mrule})
         def mcls(name, typ): return pyeval.ClassObj(name, {"_tx_type": typ, "_tx_attrs": {}, "_tx_fqn": name, "__name__": name})
         cModel, cItem, cKind, cB, cVal, cBox, cInner, cID, cKW = mcls("Model", COMMON), mcls("Item", COMMON), mcls("Kind", ABSTRACT), mcls("B", COMMON), mcls("Val", MATCH), mcls("Box", COMMON), mcls("Inner", COMMON), mcls("ID", MATCH), mcls("KW", MATCH)
+        cKindM, cKindT, cFQN, cUser = mcls("KindM", ABSTRACT), mcls("KindT", ABSTRACT), mcls("FQN", MATCH), mcls("UserThing", COMMON)
+        cUser.own["_tx_attrs"] = {"name": attr("name", cID)}
+        user_class = pyeval.ClassObj("UserThing", {"_tx_type": COMMON, "_tx_attrs": cUser.own["_tx_attrs"], "_tx_fqn": "UserThing", "__name__": "UserThing", "_tx_obj_attrs": {}})       # a class supplied by the user (classes=[UserThing])
         cItem.own["_tx_attrs"] = {"name": attr("name", cID), "flag": attr("flag", cKW, OPT, boolasg=True)}
         cB.own["_tx_attrs"] = {"name": attr("name", cID)}; cBox.own["_tx_attrs"] = {"inner": attr("inner", cInner)}
         cModel.own["_tx_attrs"] = {"name": attr("name", cID), "items": attr("items", cItem, MANY), "first": attr("first", cItem, ONE, cont=False, ref=True, provider=prov, mrule="ID"),
-                                   "refs": attr("refs", cItem, MANY, cont=False, ref=True, provider=None, mrule="FQN"), "kind": attr("kind", cKind), "val": attr("val", cVal), "box": attr("box", cBox)}
+                                   "refs": attr("refs", cItem, MANY, cont=False, ref=True, provider=None, mrule="FQN"), "kind": attr("kind", cKind), "val": attr("val", cVal), "box": attr("box", cBox),
+                                   "val2": attr("val2", cKindM), "val3": attr("val3", cKindT), "thing": attr("thing", cUser), "code": attr("code", cID), "code2": attr("code2", cID), "code0": attr("code0", cID), "kind2": attr("kind2", cKindM)}
         def rule(name, cls=None, attr_name=None, root=True, sep=None): return HS({".kind": "rule", ".rule_name": name, ".root": root, "._tx_class": cls, "._attr_name": attr_name, ".sep": sep, ".suppress": False})
         def T(rule_name, value, pos): return TermS({".__class__": TERM, ".kind": "terminal", ".value": value, ".rule_name": rule_name, ".position": pos, ".position_end": pos + len(value), ".rule": rule(rule_name, {"ID": cID}.get(rule_name), root=False), ".suppress": False, ".flat_str": pyeval.PyFn(lambda: value)})
         def N(rule_name, pos, end, kids, cls=None, attr_name=None, sep=None): return pyeval.SList(kids, rule_name=rule_name, rule=rule(rule_name, cls, attr_name, sep=sep), position=pos, position_end=end, value="|".join(str(k) for k in kids), suppress=False, flat_str=pyeval.PyFn(lambda: "".join(str(k) if isinstance(k, TermS) else k.sample_attrs["flat_str"]() for k in kids)))
+        def RT(rule_name, value, pos, groups, group1, pattern, lastindex=None):
+            """a terminal matched by a regex with capture groups: <m> matched by /<(M)>/ under ignore_case"""
+            t_ = T(rule_name, value, pos)
+            t_[".rule"] = HS({".kind": "rule", ".__class__": REM, ".rule_name": rule_name, ".root": False, "._tx_class": cID, ".to_match": pattern, ".to_match_regex": pattern, ".ignore_case": True, ".regex": {".groups": groups, ".pattern": pattern}, ".suppress": False, ".sep": None})
+            t_[".extra_info"] = {".group": pyeval.PyFn(lambda n=0: {0: value, 1: group1}.get(n)), ".start": pyeval.PyFn(lambda n=0: pos + (1 if n else 0)), ".groups": pyeval.PyFn(lambda: (group1,)), ".lastindex": lastindex if lastindex is not None else (groups or None), ".re": {".groups": groups, ".pattern": pattern}, ".string": "x" * pos + value}
+            return t_
         def A(op, attr_name, pos, end, kids, sep=None): return N("__asgn_" + op, pos, end, kids, attr_name=attr_name, sep=sep)
         item1 = N("Item", 5, 20, [A("plain", "name", 6, 8, [T("ID", "i1", 6)]), A("optional", "flag", 9, 11, [T("KW", "on", 9)])], cItem)
         item2 = N("Item", 22, 40, [A("plain", "name", 23, 25, [T("ID", "i2", 23)])], cItem)
         kids = [A("plain", "name", 0, 1, [T("ID", "m", 0)]),
                 A("oneormore", "items", 5, 60, [item1, T("sep", ",", 21), item2]),
                 A("plain", "first", 61, 63, [T("ID", "i2", 61)]),
-                A("oneormore", "refs", 64, 80, [T("FQN", "i1", 64), T("sep", ",", 67), T("FQN", "i2", 68), T("FQN", "i1", 72)], sep=rule("sep", root=False)),     # the separator /,?/ matched nothing before the last value
-                A("plain", "kind", 81, 90, [N("Kind", 81, 90, [T("KW", "k", 81), N("B", 83, 90, [A("plain", "name", 84, 85, [T("ID", "b", 84)])], cB)], cKind)]),
+                A("oneormore", "refs", 64, 80, [T("FQN", "i1", 64), T("sep", ",", 67), T("FQN", "i2", 68), T("FQN", "i1", 72),     # the separator /,?/ matched nothing before the third value
+                                                N("FQN", 75, 80, [T("ID", "p", 75), T("KW", ".", 77), T("ID", "q", 79)], cFQN)], sep=rule("sep", root=False)),                     # 'p . q': a match rule of several tokens, blanks between them
+                A("plain", "kind", 81, 90, [N("Kind", 81, 90, [T("KW", "k", 81), N("Val", 82, 83, [T("STRING", "v", 82)], cVal), N("B", 83, 90, [A("plain", "name", 84, 85, [T("ID", "b", 84)])], cB)], cKind)]),
                 A("plain", "val", 91, 95, [N("Val", 91, 95, [T("STRING", "a", 91), T("STRING", "b", 93)], cVal)]),
                 A("plain", "box", 90, 95, [N("Box", 90, 95, [A("plain", "inner", 90, 95, [N("Inner", 90, 95, [], cInner)])], cBox)])]
-        if double: kids.append(A("plain", "name", 96, 97, [T("ID", "again", 96)]))
-        tree = N("Model", 0, 100, kids, cModel)
+        kids += [A("plain", "val2", 96, 100, [N("KindM", 96, 100, [T("KW", "k", 96), N("Val", 98, 100, [T("STRING", "c", 98), T("STRING", "d", 99)], cVal)], cKindM)]),        # abstract rule, only a match rule referenced
+                 A("plain", "val3", 101, 104, [N("KindT", 101, 104, [T("KW", "k", 101), T("KW", "l", 103)], cKindT)]),                                                          # abstract rule, only plain matches
+                 A("plain", "thing", 105, 115, [N("UserThing", 105, 115, [A("plain", "name", 106, 108, [T("ID", "ut", 106)])], cUser)]),
+                 A("plain", "code", 116, 119, [RT("CODE", "<m>", 116, 1, "m", "<(M)>")]),
+                 A("plain", "code2", 120, 123, [RT("CODE2", "<n>", 120, 2, "n", "<(N)>|\\[(N)\\]", lastindex=1)]),          # two groups in the pattern, one took part in this match
+                 A("plain", "code0", 124, 127, [RT("CODE0", "<o>", 124, 0, None, "<O>")]),
+                 A("plain", "kind2", 128, 129, [N("KindM", 128, 129, [N("Val", 128, 128, [T("STRING", "w", 128)], cVal),                      # abstract alternative: a match rule, then an abstract rule, then a common rule
+                                                                    N("Kind", 128, 129, [N("B", 128, 129, [A("plain", "name", 128, 129, [T("ID", "b2", 128)])], cB)], cKind),
+                                                                    N("Item", 129, 129, [A("plain", "name", 129, 129, [T("ID", "i9", 129)])], cItem)], cKindM)])]
+        if double: kids.append(A("plain", "name", 130, 135, [T("ID", "again", 130)]))
+        tree = N("Model", 0, 140, kids, cModel)
         processed = []
         def init_attrs(o):
             for a in o.cls.lookup("_tx_attrs")[1].values(): o.own[a[".name"]] = [] if a[".mult"] == MANY else (False if a[".bool_assignment"] else None)
-        mm = HS({".kind": "metamodel", ".user_classes": {}, ".textx_tools_support": tools, ".use_regexp_group": False, ".debug": False, ".ignore_case": False, ".autokwd": False, ".skipws": True, ".ws": " ", ".auto_init_attributes": True, "._init_obj_attrs": pyeval.PyFn(init_attrs),
+        mm = HS({".kind": "metamodel", ".user_classes": {"UserThing": user_class}, ".textx_tools_support": tools, ".use_regexp_group": regexp_group, ".debug": False, ".ignore_case": False, ".autokwd": False, ".skipws": True, ".ws": " ", ".auto_init_attributes": True, "._init_obj_attrs": pyeval.PyFn(init_attrs),
                  ".process": pyeval.PyFn(lambda value, typ, filename=None, col=None, line=None, nchar=None, **k: (processed.append((value, typ, filename, line, col)), ("converted:" + value) if typ == "Val" else value)[1])})
-        parser = HS({".kind": "parser", ".debug": False, ".metamodel": mm, ".file_name": "model.file", ".position": 103, ".input": "x" * 100 + "   ", "._inst_stack": [], "._crossrefs": [], "._instances": {}, "._user_obj_ids": [], "._user_class_inst": [],
+        parser = HS({".kind": "parser", ".debug": False, ".metamodel": mm, ".file_name": "model.file", ".position": 143, ".input": "x" * 140 + "   ", "._inst_stack": [], "._crossrefs": [], "._instances": {}, "._user_obj_ids": [], "._user_class_inst": [],
                      ".pos_to_linecol": pyeval.PyFn(lambda pos: (("line", pos), ("col", pos))), ".dprint": pyeval.PyFn(lambda *a: None)})
         env = dict(consts)
-        env.update({"__classdefs__": cds, "__functions__": fns, "__module__": t, "__maxdepth__": 30, "parser": parser, "metamodel": mm, "pos_rule_dict": {}, "pos_crossref_list": [], "file_name": "model.file", "Terminal": TERM,
+        env.update({"__classdefs__": cds, "__functions__": fns, "__module__": t, "__maxdepth__": 30, "parser": parser, "metamodel": mm, "pos_rule_dict": {}, "pos_crossref_list": [], "file_name": "model.file", "Terminal": TERM, "RegExMatch": REM, "re": pyeval.TRUSTED["re"],
                     "TextXSemanticError": pyeval.PyFn(lambda *a, **k: {".cls": "TextXSemanticError", ".kw": k, ".args": a}), "TextXSyntaxError": pyeval.PyFn(lambda *a, **k: {".cls": "TextXSyntaxError"}),
-                    "__classes__": {"Terminal": lambda v: isinstance(v, TermS), "NonTerminal": lambda v: isinstance(v, pyeval.SList), "list": lambda v: isinstance(v, list) and not isinstance(v, pyeval.SList) or isinstance(v, list), "str": lambda v: isinstance(v, str)},
-                    "__keep__": tuple(consts) + ("parser", "metamodel", "pos_rule_dict", "pos_crossref_list", "file_name", "Terminal"), p0: tree})
-        return env, parser, mm, dict(Model=cModel, Item=cItem, B=cB, Box=cBox, Inner=cInner, Kind=cKind), prov, processed
+                    "__classes__": {"RegExMatch": lambda v: isinstance(v, dict) and v.get(".__class__") is REM, "Terminal": lambda v: isinstance(v, TermS), "NonTerminal": lambda v: isinstance(v, pyeval.SList), "list": lambda v: isinstance(v, list) and not isinstance(v, pyeval.SList) or isinstance(v, list), "str": lambda v: isinstance(v, str)},
+                    "__keep__": tuple(consts) + ("parser", "metamodel", "pos_rule_dict", "pos_crossref_list", "file_name", "Terminal", "RegExMatch"), p0: tree})
+        return env, parser, mm, dict(Model=cModel, Item=cItem, B=cB, Box=cBox, Inner=cInner, Kind=cKind, User=user_class), prov, processed
     def run(env):
         try: return ("ret", pyeval.run_block(pn.body, env))
         except pyeval.Raised as r_: return ("raise", r_)
@@ -90,7 +111,10 @@ def r_processnode(root):
     env, parser, mm, C, prov, processed = build()
     k, model = run(env)
     rep("C05", "C05.g", "the sample tree is built", k == "ret" and isinstance(model, pyeval.InstObj) and model.cls is C["Model"], "building the model of the sample parse tree %s" % ("raises %s" % model.cls if k == "raise" else "does not return the Model object"))
-    if not (k == "ret" and isinstance(model, pyeval.InstObj)): return inst, out
+    if not (k == "ret" and isinstance(model, pyeval.InstObj)):
+        for pr_, cl_ in (("C03", "C03.n"), ("C02", "C02.f"), ("C06", "C06.f"), ("C08", "C08.e"), ("C13", "C13.h"), ("C14", "C14.m"), ("C07", "C07.f"), ("C32", "C32.f")):       # none of these can hold when the model is not built
+            rep(pr_, cl_, "the sample tree is built", False, "building the model of the sample parse tree %s" % ("raises %s" % model.cls if k == "raise" else "does not return the Model object"))
+        return inst, out
     g = lambda o, n: o.own.get(n) if isinstance(o, pyeval.InstObj) else None
     items = g(model, "items") or []; kind = g(model, "kind"); box = g(model, "box"); inner = g(box, "inner")
     objs_ok = len(items) == 2 and all(isinstance(x, pyeval.InstObj) and x.cls is C["Item"] for x in items) and isinstance(kind, pyeval.InstObj) and isinstance(box, pyeval.InstObj) and isinstance(inner, pyeval.InstObj)
@@ -100,17 +124,29 @@ def r_processnode(root):
         parents = [("item i1", items[0], model), ("item i2", items[1], model), ("kind", kind, model), ("box", box, model), ("inner", inner, box)]
         badp = [n for n, o, p_ in parents if o.own.get("parent") is not p_]
         rep("C05", "C05.g", "every contained object has its container as parent, the model has none", not badp and "parent" not in model.own, "parent links after building the sample model: wrong for %s%s; documented: the object whose attribute contains it (the model itself has no parent)" % (badp, ", the root has a parent" if "parent" in model.own else ""))
-        spans = [("model", model, 0, 100), ("item i1", items[0], 5, 20), ("item i2", items[1], 22, 40), ("kind object", kind, 83, 90), ("box", box, 90, 95), ("inner", inner, 90, 95)]
+        spans = [("model", model, 0, 140), ("item i1", items[0], 5, 20), ("item i2", items[1], 22, 40), ("kind object", kind, 83, 90), ("box", box, 90, 95), ("inner", inner, 90, 95)]
         bads = [(n, o.own.get("_tx_position"), o.own.get("_tx_position_end")) for n, o, a, b in spans if (o.own.get("_tx_position"), o.own.get("_tx_position_end")) != (a, b)]
         rep("C06", "C06.f", "objects carry the span of the text their rule matched", not bads, "spans after building the sample model: %s; documented %s" % (bads, [(n, a, b) for n, _o, a, b in spans if any(n == x[0] for x in bads)]))
-        rep("C03", "C03.n", "an abstract rule yields the object of its first non-match alternative", kind.cls is C["B"] and g(kind, "name") == "b", "the value of an attribute of abstract type Kind (matched as 'k' followed by a B object) is %s; documented: the B object" % (kind.cls.name if isinstance(kind, pyeval.InstObj) else kind))
+        rep("C03", "C03.n", "an abstract rule yields the object of its first non-match alternative", kind.cls is C["B"] and g(kind, "name") == "b", "the value of an attribute of abstract type Kind (matched as 'k', the match rule Val and a B object) is %s; documented: the B object (the first referenced rule that is not a match rule)" % (kind.cls.name if isinstance(kind, pyeval.InstObj) else kind))
+    kind2 = g(model, "kind2")
+    rep("C03", "C03.n", "the first referenced rule that is not a match rule may itself be abstract; later ones are not built", isinstance(kind2, pyeval.InstObj) and kind2.cls is C["B"] and g(kind2, "name") == "b2" and "i9" not in parser["._instances"].get(id(C["Item"]), {}),
+        "the value of an attribute of abstract type matched as (match rule Val, abstract rule Kind -> B 'b2', common rule Item 'i9') is %s; documented: the B object b2 that the abstract rule Kind yields (the first referenced rule that is not a match rule), nothing else is built" % ((kind2.cls.name + " " + str(g(kind2, "name"))) if isinstance(kind2, pyeval.InstObj) else repr(kind2)))
     rep("C03", "C03.n", "a match rule yields the joined, converted text", g(model, "val") == "converted:ab", "the value of an attribute of the match rule Val (matched as 'a' 'b') is %r; documented: the two parts joined and converted once as Val ('converted:ab')" % (g(model, "val"),))
+    rep("C03", "C03.n", "an abstract rule that matched only a match rule / only plain matches yields the converted value / the joined text", g(model, "val2") == "converted:cd" and g(model, "val3") == "kl",
+        "the attributes of abstract type matched as ('k' then the match rule Val 'c' 'd') and ('k' 'l') hold %r and %r; documented 'converted:cd' (the match rule's value, converted once) and 'kl' (the matched texts joined)" % (g(model, "val2"), g(model, "val3")))
+    thing = g(model, "thing"); U = C["User"]
+    rep("C14", "C14.m", "an object of a user class is allocated from the user's class without running __init__, registered for initialisation after the model is built", isinstance(thing, pyeval.InstObj) and thing.cls is U and parser["._user_class_inst"] == [thing] and parser["._user_obj_ids"] == [id(thing)] and id(thing) in U.own["_tx_obj_attrs"] and thing.own.get("parent") is model and g(thing, "name") == "ut",
+        "the object matched by the rule of the user class UserThing is %s; registered for __init__: %s, attribute store reserved: %s, parent set: %s; documented: an instance of the user's class, allocated without __init__, queued once for initialisation, with its attributes collected and its parent set" % (thing.cls.name if isinstance(thing, pyeval.InstObj) else thing, parser["._user_class_inst"] == [thing], isinstance(thing, pyeval.InstObj) and id(thing) in U.own["_tx_obj_attrs"], isinstance(thing, pyeval.InstObj) and thing.own.get("parent") is model))
+    rep("C13", "C13.h", "every match is converted once under the name of its own rule, with the file and position of the match", ("m", "ID", "model.file", ("line", 0), ("col", 0)) in processed and ("ab", "Val", "model.file", ("line", 91), ("col", 91)) in processed and ("<m>", "CODE", "model.file", ("line", 116), ("col", 116)) in processed and len([x for x in processed if x[1] == "Val"]) == 2
+        and ("b", "STRING", "model.file", ("line", 93), ("col", 93)) in processed and ("q", "ID", "model.file", ("line", 79), ("col", 79)) in processed and ("p.q", "FQN", "model.file", ("line", 75), ("col", 75)) in processed,
+        "the conversions requested while building the sample model are %s; documented: one per match under its rule name with file, line and col of the match (e.g. 'm' as ID at 0, 'ab' as Val at 91 and its part 'b' as STRING at 93, 'p.q' as FQN at 75 and its part 'q' as ID at 79, '<m>' as CODE at 116)" % ([x for x in processed if x[1] in ("Val", "CODE", "STRING", "FQN") or x[0] in ("m", "q")][:12],))
+    rep("C01", "C01.k", "without use_regexp_group every regex match is taken whole", g(model, "code") == "<m>" and g(model, "code2") == "<n>" and g(model, "code0") == "<o>", "without use_regexp_group the regex matches '<m>', '<n>', '<o>' give %r, %r, %r; documented: the whole match" % (g(model, "code"), g(model, "code2"), g(model, "code0")))
     xr = parser["._crossrefs"]
     def xd(x): return (x[2].get(".obj_name"), x[2].get(".position"), x[2].get(".position_end"), x[2].get(".cls") is C["Item"], x[1].get(".name") if isinstance(x[1], dict) else None, x[0] is model) if isinstance(x, (tuple, list)) and len(x) == 3 and isinstance(x[2], dict) else x
-    want = [("i2", 61, 63, True, "first", True), ("i1", 64, 66, True, "refs", True), ("i2", 68, 70, True, "refs", True), ("i1", 72, 74, True, "refs", True)]
+    want = [("i2", 61, 63, True, "first", True), ("i1", 64, 66, True, "refs", True), ("i2", 68, 70, True, "refs", True), ("i1", 72, 74, True, "refs", True), ("p.q", 75, 80, True, "refs", True)]
     rep("C08", "C08.e", "references are queued with their own name, target class and span, for their object and attribute, in textual order", [xd(x) for x in xr] == want,
         "the references queued for the sample model are %s; documented %s (name, start, end of the reference's own text, target class Item, attribute, queued for the model object)" % ([xd(x) for x in xr], want))
-    if len(xr) == 4 and all(isinstance(x[2], dict) for x in xr):
+    if len(xr) == 5 and all(isinstance(x[2], dict) for x in xr):
         rep("C32", "C32.f", "a queued reference carries the provider and match rule of its attribute", xr[0][2].get(".scope_provider") is prov and xr[0][2].get(".match_rule_name") == "ID" and xr[1][2].get(".scope_provider") is None and xr[1][2].get(".match_rule_name") == "FQN",
             "the reference of attribute first carries provider %s and match rule %r, the ones of refs %s / %r; documented: the grammar RREL provider and match rule ID of first, no provider and match rule FQN for refs" % ("of the attribute" if xr[0][2].get(".scope_provider") is prov else xr[0][2].get(".scope_provider"), xr[0][2].get(".match_rule_name"), xr[1][2].get(".scope_provider"), xr[1][2].get(".match_rule_name")))
     rep("C05", "C05.g", "single-valued reference attributes stay unset until resolution", g(model, "first") is None and g(model, "refs") == [], "before resolution the reference attributes hold %r / %r; documented None / [] (the references are queued, not stored)" % (g(model, "first"), g(model, "refs")))
@@ -129,7 +165,14 @@ def r_processnode(root):
         box = model.own.get("box"); inner = box.own.get("inner") if isinstance(box, pyeval.InstObj) else None
         rep("C05", "C05.g", "with tool support the containment is the same", isinstance(box, pyeval.InstObj) and box.cls is C["Box"] and isinstance(inner, pyeval.InstObj) and inner.cls is C["Inner"] and inner.own.get("parent") is box and box.own.get("parent") is model,
             "with tool support the attribute box of the sample model holds %s whose inner is %s; documented: the Box object containing the Inner object, as without tool support (the objects share the span 90-95)" % (box.cls.name if isinstance(box, pyeval.InstObj) else box, inner.cls.name if isinstance(inner, pyeval.InstObj) else inner))
-        rep("C34", "C34.i", "every object is registered under its span, the innermost one for a shared span", set(prd) == {(0, 100), (5, 20), (22, 40), (83, 90), (90, 95)} and prd.get((90, 95)) is inner and prd.get((0, 100)) is model,
+        rep("C34", "C34.i", "every object is registered under its span, the innermost one for a shared span", set(prd) == {(0, 140), (5, 20), (22, 40), (83, 90), (90, 95), (105, 115), (128, 129)} and prd.get((90, 95)) is inner and prd.get((0, 140)) is model,
             "with tool support the span map of the sample model has the spans %s and maps 90-95 (shared by Box and the Inner object it contains) to %s; documented: one entry per object span, the innermost object for a shared span" % (sorted(prd), "Inner" if prd.get((90, 95)) is inner else "Box" if prd.get((90, 95)) is box else prd.get((90, 95))))
     else: rep("C34", "C34.i", "the sample tree is built with tool support", False, "with tool support building the sample model %s" % ("raises %s" % model.cls if k == "raise" else "fails"))
+    # use_regexp_group
+    env, parser, mm, C, prov, processed = build(regexp_group=True)
+    k, model = run(env)
+    if k == "ret" and isinstance(model, pyeval.InstObj):
+        rep("C01", "C01.k", "use_regexp_group: a regex with exactly one group yields the group, converted under the rule's name", model.own.get("code") == "m" and ("m", "CODE", "model.file", ("line", 116), ("col", 116)) in processed and model.own.get("name") == "m" and model.own.get("val") == "converted:ab" and model.own.get("code2") == "<n>" and model.own.get("code0") == "<o>",
+            "with use_regexp_group the match '<m>' of the one-group regex rule CODE gives %r (conversions requested: %s), the matches '<n>' of a two-group regex and '<o>' of a regex without groups give %r and %r; documented: the group text 'm', converted once as CODE with the position of the match; the whole match for every other regex (the choice depends on the pattern, not on the individual match)" % (model.own.get("code"), [x for x in processed if x[1] == "CODE"], model.own.get("code2"), model.own.get("code0")))
+    else: rep("C01", "C01.k", "the sample tree is built with use_regexp_group", False, "with use_regexp_group building the sample model %s" % ("raises %s" % model.cls if k == "raise" else "fails"))
     return inst, out
